@@ -58,6 +58,27 @@ def check(src, rep):
         elif m.feasible(sp) and sp.post.other:
             n_bad += 1
             rep.violation("N2", "hdlc.HdlcFrameReader.read", "other-effect", f"step has an effect outside the reader's per-frame state: {sp.post.other}", m.file, loc(m, sp), witness=f"[{sp.guard_text()}]")
+    # what a step does must not depend on what this very call has already returned (the result list is per call: another splitting puts the earlier frame in an earlier call)
+    res_names = set()
+    for sp in m.paths:
+        for e in sp.path.effects:
+            if e[0] in ("mutate", "callm") and len(e) > 3 and e[2] == "append" and isinstance(e[1], tuple) and e[1][0] in ("g", "l") and e[3] and sp.post.emitted:
+                res_names.add(e[1])
+
+    def _mentions_result(g):
+        return isinstance(g, tuple) and (g in res_names or any(_mentions_result(x) for x in g))
+    groups = {}
+    for sp in m.paths:
+        if m.feasible(sp):
+            groups.setdefault(tuple(sorted(sp.lits.items())), []).append(sp)
+    for lits_, sps in groups.items():
+        dep = [sp for sp in sps if any(_mentions_result(g) for _, _, g in sp.unknown)]
+        if dep and len({sp.post.key() for sp in sps}) > 1:
+            n_bad += 1
+            sp = dep[0]
+            rep.violation("N3", "hdlc.HdlcFrameReader.read", "result-list-dependence", "what a step does depends on the frames this read() call has already returned: the list of results is per call, so a "
+                          "splitting that delivers the earlier frame in an earlier call gives another sequence of frames", m.file, loc(m, sp), witness=f"[{sp.guard_text()}] => {sp.post.brief()}"[:260])
+            break
     if not n_bad:
         rep.ok("N3", "step function", f"each of the {sum(1 for sp in m.paths if m.feasible(sp))} feasible step paths consumes exactly one octet and touches only frame, pending escape, raw store, buffer and result list")
     rep.floor("step paths", sum(1 for sp in m.paths if m.feasible(sp)), 10)
